@@ -51,7 +51,7 @@ def run_abi(chk, wd, abi, thorough, nsample):
     import hashlib
     gh = int(hashlib.sha256(src.encode()).hexdigest()[:7], 16)
     drv = vp.build("c08_driver_" + abi, ["c08_driver.cpp"],
-                   ["-DVM_MAX_FUNCS=250", "-I" + gdir, "-DGENHASH=%d" % gh, "-DC08_ABI=vm_abi_" + abi], "-O1")
+                   ["-DVM_MAX_FUNCS=400", "-I" + gdir, "-DGENHASH=%d" % gh, "-DC08_ABI=vm_abi_" + abi], "-O1")
     tpath = os.path.join(wd, "c08_%s.ndjson" % abi)
     p = vp.run([drv, tpath, str(vp.seed())], timeout=1100)
     if p.returncode != 0:
